@@ -10,7 +10,7 @@ RULE = ('cells = every drop profile of 1..5 rows (thorough 6) with drops in {-2,
         'between each pair of rows and one beyond the last row, for half-heights {0.25,0.5,1,1.5,2.25,5} in; real part: trajectories '
         '(600-yd zero, flat 100-yd zero, 30-degree arc; look 0 and 15 deg; 1-yd and 10-yd rows) x every 25 yd on both branches x 4 heights; '
         'non-trivial = profile with >= 3 rows that is not constant (so a bound can lie strictly inside)')
-ASSUMPTIONS = ['drop levels and heights outside the alphabet are represented by their order relations with h/2 only',
+ASSUMPTIONS = ['the requested range of an inclined trajectory may be read as horizontal or as look distance (either, consistently)', 'drop levels and heights outside the alphabet are represented by their order relations with h/2 only',
                'comparisons use 1e-9 in slack on real trajectories']
 LEVEL_TEXT = ('All profiles up to the bound are enumerated (rising, falling, arcing, oscillating), so both branches and every position of '
               'the bound rows are covered; the oracle is the statement itself.')
@@ -35,12 +35,19 @@ def oracle(rows, at_raw, half, ds, slack=0.0):
     except KeyError:
         return ['a bound is not a row of the trajectory'], None
     out = []
+    # "the requested range" of an inclined trajectory may be measured along the ground (distance) or along the sight line (look distance);
+    # the statement does not say which: either is accepted, but consistently within one answer (DESIGN section 8, item 11)
     tgt = next((i for i, r in enumerate(rows) if r.distance.raw_value >= at_raw), -1)
+    tgt_l = next((i for i, r in enumerate(rows) if r.look_distance.raw_value >= at_raw), -1)
+    measure = (lambda r: r.distance.raw_value)
     if c != tgt:
-        out.append(f'target row {c} is not the first row at or beyond the requested range ({tgt})')
+        if c == tgt_l:
+            measure = (lambda r: r.look_distance.raw_value)
+        else:
+            out.append(f'target row {c} is not the first row at or beyond the requested range ({tgt})')
     if not b <= c <= e:
         out.append(f'rows out of order: begin {b}, target {c}, end {e}')
-    if not (rows[b].distance.raw_value <= at_raw + slack and at_raw <= rows[e].distance.raw_value + slack):
+    if not (measure(rows[b]) <= at_raw + slack and at_raw <= measure(rows[e]) + slack):
         out.append(f'begin/end rows {b},{e} do not bracket the requested range')
     dc = rows[c].target_drop.raw_value
     for i in range(b + 1, e):
